@@ -103,6 +103,54 @@ PROPS = {
             "send back-pressure is switched off where 'at once' is judged (a connection task does nothing while the transport refuses to send)",
         ],
     ),
+    "C09": dict(
+        level="exploration",
+        level_text="Two oracles. Arithmetic: the real seq_nr_offset / SeqNr ordering against true modular distance for every pair "
+                   "of 16-bit values within +-8192 of each other (quick: complete for that band, 1.07e9 pairs, plus random pairs; "
+                   "thorough: all 2^32 pairs, judged on the band). Metamorphic: the same whole-stack case run twice, identical but "
+                   "for the values random_u16 hands out (small vs placed shortly before 65535, connection ids included); the "
+                   "normalised wire traces and the application histories with their virtual timestamps must be equal. The "
+                   "simulator's determinism (self-checked on every run) is what makes equality the right oracle.",
+        level_note=SIM_NOTE + "; the band +-8192 is what 1 MiB buffers allow down to a 176-byte link MTU",
+        technique="runtime monitoring: banded-exhaustive differential check of the sequence arithmetic + metamorphic trace comparison",
+        budget=dict(quick=200, thorough=2400),
+        require=["c09_pairs_checked", "c09_pairs_compared", "c09_runs_crossing_the_wrap", "c09_runs_with_more_than_1024_in_flight"],
+        rule="arithmetic cases = slices of the pair space (every pair in the band is evaluated); metamorphic cases = (configuration, "
+             "fault plan, schedule, two placements of the initial numbers); every fifth metamorphic case uses a small MTU, 1 MiB "
+             "buffers and a bulk transfer so that more than 1024 packets are in flight while the numbers wrap; distinct = distinct "
+             "slice / distinct normalised wire trace",
+        assumptions=["initial sequence numbers and connection ids are injected through the UtpEnvironment hook",
+                     "distances beyond +-8192 (link MTU below 176 bytes with 1 MiB buffers) are not judged"],
+    ),
+    "C15": dict(
+        level="exploration",
+        level_text="Invariant monitoring of the real Cubic controller driven through the CongestionController trait with millions of "
+                   "generated calls (ACKs of 0/1/MSS/huge, timeouts, recovery entry/exit, MSS changes, peer-window updates, time steps "
+                   "from 0 to hours, RTT estimates from 0 ns to hours): window bounds after every call, loss reactions, slow-start "
+                   "growth bound, MSS rescaling.",
+        level_note="trusted base: the oracle formulas (derived from the property statement) and the hook re-export of Cubic; no simulator involved",
+        technique="runtime monitoring: invariant oracles after every call on generated operation sequences",
+        budget=dict(quick=120, thorough=1200),
+        require=["c15_window_bounds_checked", "c15_loss_events_checked", "c15_slow_start_acks_checked", "c15_mss_changes_checked"],
+        rule="a case is one generated sequence of 1500 (quick) / 15000 (thorough) controller calls with its own starting MSS and peer "
+             "window; every case is non-trivial; distinct = distinct hash of the call sequence",
+        assumptions=["the upper bound is not asserted between set_mss and the next set_remote_window (the dispatcher always calls them back to back)",
+                     "integer truncation tolerance of one segment on all bounds"],
+    ),
+    "C16": dict(
+        level="exploration",
+        level_text="Lock-step comparison of the real RttEstimator with a line-by-line RFC 6298 reference (alpha 1/8, beta 1/4, K 4, "
+                   "G 10 ms, clamp 200 ms..60 s) over millions of generated sample / timeout sequences (samples 0 ns..hours, "
+                   "adversarial alternations): equality after every sample, doubling-and-clamping after every timeout, bounds always, "
+                   "smoothed RTT within the samples seen.",
+        level_note="trusted base: the reference model written from RFC 6298 and the hook re-export of RttEstimator; no simulator involved",
+        technique="runtime monitoring: reference-model oracle in lock-step on generated operation sequences",
+        budget=dict(quick=120, thorough=1200),
+        require=["c16_samples_checked", "c16_timeouts_checked"],
+        rule="a case is one generated sequence of 2000 (quick) / 20000 (thorough) sample/timeout operations; every case is "
+             "non-trivial; distinct = distinct hash of the operation sequence",
+        assumptions=["1 microsecond tolerance for integer truncation order in the smoothing formulas"],
+    ),
 }
 
 
